@@ -48,4 +48,14 @@ pub open spec fn ops_full<Old: Index<usize> + ?Sized, New: Index<usize> + ?Sized
     && b.o0 + osum(ops, ops.len() as int) == b.oe && b.n0 + nsum(ops, ops.len() as int) == b.ne
 }
 
+/// the index a Delete / Insert carries for the other side leaves room for the equal items before and after it, so that
+/// sliding it across them neither underflows nor overflows (implied by within-run validity and by exactness)
+pub open spec fn carried_ok(ops: Seq<DiffOp>) -> bool {
+    forall|i: int| 0 <= i < ops.len() ==> match #[trigger] ops[i] {
+        DiffOp::Insert { old_index, new_index, new_len } => esum(ops, i) <= old_index && old_index + (esum(ops, ops.len() as int) - esum(ops, i)) <= usize::MAX,
+        DiffOp::Delete { old_index, old_len, new_index } => esum(ops, i) <= new_index && new_index + (esum(ops, ops.len() as int) - esum(ops, i)) <= usize::MAX,
+        _ => true,
+    }
+}
+
 } // verus!
